@@ -11,7 +11,7 @@ def mc(ids, expired):
 
 
 def cfg(steps, mode, view=True, props=True):
-    t = 'SPECIFICATION Spec\nCONSTANTS\n Ids <- MCIds\n Parts <- MCParts\n ExpiredIds <- MCExpired\n MaxSteps = %d\n EmitMode = "%s"\nINVARIANTS TypeOK CompleteIffCovered Emit\n' % (steps, mode)
+    t = 'SPECIFICATION Spec\nCONSTANTS\n Ids <- MCIds\n Parts <- MCParts\n ExpiredIds <- MCExpired\n MaxSteps = %d\n EmitMode = "%s"\nINVARIANTS TypeOK CompleteIffCovered OrphansUnrecorded Emit\n' % (steps, mode)
     if props:
         t += "PROPERTIES CrashIsLocal ReopenIdentity\n"
     if view:
